@@ -43,6 +43,21 @@ CHECKS = {
     "C12": ("model_checking", "bumpmc arena explorer (profile allocapi)", "§4 C12",
             "BFS over allocate/deallocate/grow/grow_zeroed/shrink on up to three handles with independent old/new sizes and alignments mixed with native allocations and resets; oracle: fit, alignment, prefix, zero tail, disjointness, Err leaves the block intact.",
             "exhaustive history enumeration of Allocator calls"),
+    "C13": ("model_checking", "bumpmc vec model (differential BFS against std::vec::Vec)", "§4 C13",
+            "BFS over programs of Vec operations (every method named in the property, every RangeBounds form over indices 0, n/2, n-1, n, n+1, usize::MAX, predicates, iterator consumption patterns, neighbours growing in the same arena) executed on bumpalo::collections::Vec and std Vec; return values, contents, lengths, panics, capacity promises and neighbours are compared after every step, for drop-tracked, u8 and zero-sized elements.",
+            "exhaustive program enumeration with a reference model (explicit-state BFS by re-execution)"),
+    "C14": ("model_checking", "bumpmc string model + decoder grids", "§4 C14",
+            "BFS over programs of String operations over text mixing 1-4 byte characters with every byte index (0..=len+1, usize::MAX) and every range form, against std String (values, text, panics, UTF-8 validity after every step); exhaustive grids for from_utf8 / from_utf8_lossy_in (all byte strings up to length 3, class alphabet up to length 5; thorough 4 and 7) and from_utf16_in.",
+            "exhaustive program enumeration with a reference model + exhaustive input grids"),
+    "C15": ("model_checking", "bumpmc vec model (drop ledgers) + Box chains", "§4 C15",
+            "Same Vec exploration with drop-tracked elements: after every step and after dropping containers and arena, the multiset of destructor runs equals std's, nothing reachable has been dropped, leaked values (into_bump_slice, forgotten iterators, Box::leak/into_raw) are never dropped; plus all Box conversion chains.",
+            "exhaustive program enumeration with destructor ledgers"),
+    "C16": ("fault_enumeration", "bumpmc vec/string models in fault mode + Box + arena callbacks", "§4 C16",
+            "For every container state (all value patterns up to the length bound, optionally after one prior operation) x every operation that calls user code x every invocation index of that callback as the single panic point: no label dropped twice (also after clearing and dropping), nothing dropped is reachable, Strings stay valid UTF-8, the arena still serves requests and passes the arena oracles; same for panicking initialisers/Clone/Default/iterators inside arena slice methods and panicking destructors under Box.",
+            "exhaustive panic-point enumeration"),
+    "C17": ("model_checking", "bumpmc grid engine (Box conversion chains)", "§4 C17",
+            "Every chain constructor x up to 3 (thorough 4) steps from {into_raw/from_raw, deref read, deref_mut write, Pin round trip, compare/hash/format} x terminal {drop, into_inner/consume, leak, into_raw, downcast mismatch+match, TryFrom<[T;N]> wrong+right N} over 11 value families (sized, zero-sized, slices from 5 constructors, str, dyn Any, dyn Any+Send, Iterator, dyn Future, dyn Hasher), compared with std Box: observations, destructor ledger, and the arena's ledger unchanged by Box death.",
+            "exhaustive chain enumeration with a reference model"),
     "C18": ("exploration", "bumpmc grid engine (capacity, growth) + arena explorer (profile capprobe)", "§4 C18",
             "Exhaustive grid: every capacity of a fixed set x MIN_ALIGN x request compositions served under a refusing allocator; growth workloads over fixed/ramp/alternating request sizes up to 2^18 (2^24 thorough) bytes judged on chunk-size monotonicity, logarithmic request count and bounded held/occupied ratio; BFS with a terminal probe of exactly chunk_capacity() bytes at every reached state.",
             "exhaustive grid enumeration + exhaustive history enumeration with capacity probes"),
